@@ -103,8 +103,66 @@ def relative_scale_fresh(ctx):
                 rep.bad("C22.R6", C, t.ast, "the convergence test is not fed by any scale that involves rtol", f"{rel}:{t.lineno}")
 
 
+def warnings_audible(ctx, rule, scope, floor_calls=1):
+    """A warning is only as good as the filter state it is issued under.  In the modules of `scope`: (a) no `warn(...)` call lies inside a
+    `with catch_warnings():` block that installs an "ignore" filter (simplefilter / filterwarnings); (b) no "ignore" filter is installed
+    outside such a block (it would stay in force for the rest of the process).  Suppressing a third party's noise is fine as long as the block
+    ends before cardillo's own warning is raised."""
+    rep = ctx.rep
+    n = 0
+    for rel, mod in sorted(ctx.repo.modules.items()):
+        if not any(rel == s_ or (s_.endswith("/") and rel.startswith(s_)) for s_ in scope):
+            continue
+        par = {}
+        for p_ in ast.walk(mod.tree):
+            for c_ in ast.iter_child_nodes(p_):
+                par[id(c_)] = p_
+
+        def ignoring(withnode):
+            if not any(isinstance(it.context_expr, ast.Call) and (dotted(it.context_expr.func) or "").split(".")[-1] == "catch_warnings" for it in withnode.items):
+                return None
+            for w in ast.walk(withnode):
+                if isinstance(w, ast.Call) and (dotted(w.func) or "").split(".")[-1] in ("simplefilter", "filterwarnings") and w.args \
+                        and isinstance(w.args[0], ast.Constant) and w.args[0].value == "ignore":
+                    return w
+            return None
+        for w in ast.walk(mod.tree):
+            if not isinstance(w, ast.Call):
+                continue
+            nm = (dotted(w.func) or "").split(".")[-1]
+            if nm == "warn":
+                n += 1
+                up, hit = par.get(id(w)), None
+                fn_ = None
+                while up is not None:
+                    if isinstance(up, ast.With) and hit is None:
+                        hit = ignoring(up)
+                    if isinstance(up, ast.FunctionDef) and fn_ is None:
+                        fn_ = up.name
+                    up = par.get(id(up))
+                C = f"{rel}:{fn_ or '<module>'}"
+                if hit is not None:
+                    rep.bad(rule, C, w, f"`{norm_src(w)[:70]}` is issued inside a `with catch_warnings()` block that installs `{norm_src(hit)}`: on the paths where that filter is active the "
+                            "warning is swallowed and the failure is silent", f"{rel}:{w.lineno}")
+                else:
+                    rep.ok(rule, C, f"`{norm_src(w)[:60]}` is not under a suppressing filter")
+            elif nm in ("simplefilter", "filterwarnings") and w.args and isinstance(w.args[0], ast.Constant) and w.args[0].value == "ignore":
+                up, scoped = par.get(id(w)), False
+                while up is not None:
+                    if isinstance(up, ast.With) and any(isinstance(it.context_expr, ast.Call) and (dotted(it.context_expr.func) or "").split(".")[-1] == "catch_warnings" for it in up.items):
+                        scoped = True
+                    up = par.get(id(up))
+                if not scoped:
+                    rep.bad(rule, f"{rel}", w, f"`{norm_src(w)}` is installed outside a `catch_warnings()` block: it stays in force and silences every later warning of that category, "
+                            "including the non-convergence warnings", f"{rel}:{w.lineno}")
+    if n < floor_calls:
+        raise AnalysisError(f"{rule}: only {n} warn(...) calls found in {scope}")
+
+
 def run(ctx):
     rep = ctx.rep
+    rep.rule("C22.R7", "the non-convergence warning of fsolve is audible: it is not issued under a warnings filter that the helper itself installed", 1)
+    warnings_audible(ctx, "C22.R7", (FS, "cardillo/math/approx_fprime.py"))
     rep.rule("C22.R6", "fixed-point helpers scale the relative tolerance by the iterates of the tested step, not by a frozen value", 2)
     relative_scale_fresh(ctx)
     rep.rule("C22.R1", "tolerances influence the success return", 6)
@@ -527,4 +585,13 @@ NEUTRAL = [
     dict(id="c22-n1", canary=True, what="fixed_point_iteration: scale computed in two steps", file=DSV,
          old="        scale = atol + np.maximum(np.abs(x), np.abs(x_new)) * rtol\n",
          new="        m = np.maximum(np.abs(x), np.abs(x_new))\n        scale = atol + m * rtol\n"),
+]
+
+MUTANTS += [
+    dict(id="c22-r7-seed", canary=True, what="[seeded by sub-agent] fsolve: the block that silences approx_fprime's performance warning is one statement too wide and swallows the non-convergence warning", file=FS,
+         edits=[(FS,) + ('from warnings import warn\n', 'from warnings import warn, catch_warnings, simplefilter\n'), (FS, '        for i in range(options.newton_max_iter):\n            # Newton update\n            dx = solve(x, f)\n            Delta_x -= dx\n            x = x0 + Delta_x\n\n            # new function value, error and convergence check\n            f = np.atleast_1d(fun(x, *fun_args))\n            error = np.linalg.norm(f / scale) / scale.size**0.5\n            converged = error < 1\n            if converged:\n                break\n\n        if not converged:\n            warn(f"fsolve is not converged after {i} iterations with error {error:.2e}")\n\n', '        with catch_warnings():\n            if options.numerical_jacobian_method:\n                simplefilter("ignore", UserWarning)\n\n            for i in range(options.newton_max_iter):\n                # Newton update\n                dx = solve(x, f)\n                Delta_x -= dx\n                x = x0 + Delta_x\n\n                # new function value, error and convergence check\n                f = np.atleast_1d(fun(x, *fun_args))\n                error = np.linalg.norm(f / scale) / scale.size**0.5\n                converged = error < 1\n                if converged:\n                    break\n\n            if not converged:\n                warn(f"fsolve is not converged after {i} iterations with error {error:.2e}")\n\n')], expect="C22.R7"),
+]
+NEUTRAL += [
+    dict(id="c22-n-r7", canary=True, what="fsolve: approx_fprime's performance warning silenced around the Newton loop only; the non-convergence warning is raised after the block", file=FS,
+         edits=[(FS,) + ('from warnings import warn\n', 'from warnings import warn, catch_warnings, simplefilter\n'), (FS, '        for i in range(options.newton_max_iter):\n            # Newton update\n            dx = solve(x, f)\n            Delta_x -= dx\n            x = x0 + Delta_x\n\n            # new function value, error and convergence check\n            f = np.atleast_1d(fun(x, *fun_args))\n            error = np.linalg.norm(f / scale) / scale.size**0.5\n            converged = error < 1\n            if converged:\n                break\n\n        if not converged:\n            warn(f"fsolve is not converged after {i} iterations with error {error:.2e}")\n\n', '        with catch_warnings():\n            if options.numerical_jacobian_method:\n                simplefilter("ignore", UserWarning)\n\n            for i in range(options.newton_max_iter):\n                # Newton update\n                dx = solve(x, f)\n                Delta_x -= dx\n                x = x0 + Delta_x\n\n                # new function value, error and convergence check\n                f = np.atleast_1d(fun(x, *fun_args))\n                error = np.linalg.norm(f / scale) / scale.size**0.5\n                converged = error < 1\n                if converged:\n                    break\n\n        if not converged:\n            warn(f"fsolve is not converged after {i} iterations with error {error:.2e}")\n\n')]),
 ]
